@@ -9,6 +9,7 @@ import Driver.CacheEng
 import Driver.TreeEng
 import Driver.CtrlEng
 import Driver.ListerEng
+import Driver.LinEng
 open Driver
 
 partial def loopFilter (h : IO.FS.Stream) (out : IO.FS.Stream) (univ : List KC.Obj) : IO Unit := do
@@ -70,12 +71,25 @@ partial def loopLister (h : IO.FS.Stream) (out : IO.FS.Stream) (st : LState) : I
     out.putStrLn "bad parse"
     loopLister h out st
 
+partial def loopLin (h : IO.FS.Stream) (out : IO.FS.Stream) (st : NState) : IO Unit := do
+  let line ← h.getLine
+  if line.isEmpty then return ()
+  match parseLine line with
+  | some e =>
+    let (st', o) := linLine st e
+    out.putStrLn o
+    loopLin h out st'
+  | none =>
+    out.putStrLn "bad parse"
+    loopLin h out st
+
 def main (args : List String) : IO UInt32 := do
   let stdin ← IO.getStdin
   let stdout ← IO.getStdout
   match args with
   | ["filter"] => loopFilter stdin stdout []; return 0
   | ["cache"] => loopCache false stdin stdout {}; return 0
+  | ["lin"] => loopLin stdin stdout {}; return 0
   | ["lister"] => loopLister stdin stdout {}; return 0
   | ["ctrl"] => loopCtrl stdin stdout {}; return 0
   | ["tree"] => loopTree stdin stdout {}; return 0
